@@ -1,28 +1,40 @@
 """C16 — start-up refuses insecure key/path/file settings; created files are safe."""
-import importlib.util, itertools, json, os, re, shutil, signal, stat, subprocess, sys, threading, time
+import importlib.util, itertools, json, os, re, shutil, signal, socket, stat, subprocess, sys, threading, time
 sys.path.insert(0, os.path.dirname(os.path.dirname(os.path.abspath(__file__))))
 import vlib
 
 MANIFEST = dict(
-    level=("proof", "Twelve Coq theorems over an executable model of path.c's directory walk (chains of any length: "
-           "secure <-> every directory acceptable, first offender and complaint reported), the key/seed/log file "
-           "vetting of conf.c/random.c/munged.c, the order of the start-up checks and the mode/umask recipe of the "
-           "five created files (all 512 umasks, foreground and daemon mode); flag values, permission bits, the flags "
-           "each call site passes and the recipes are re-observed from a real start (strace + --wrap) on every run; "
-           "tied to the code by running /repo's path.c on real directory trees (chown/chmod as root, two effective "
-           "uids) and the real daemon rebuilt from /repo in generated trees, both diffed with the extracted model "
-           "and judged by an independent statement of the property.", "7 C16"),
+    level=("proof", "Twenty-one Coq theorems over an executable model of path.c's directory walk (chains of any "
+           "length: secure <-> every directory acceptable, first offender and complaint reported), the key/seed/log "
+           "file vetting of conf.c/random.c/munged.c with the whole process identity (real/effective/saved uid and "
+           "gid) as an explicit parameter and every rule stated for the EFFECTIVE uid, the order of the start-up "
+           "checks, the mode/umask recipe of the five created files (all 512 umasks, foreground and daemon mode) and "
+           "their creation as an operation on the prior state of the directory entry (nothing / file of any type, "
+           "owner, mode / symlink / dangling symlink: unlink-then-create vs open-in-place), proved for every prior "
+           "state; flag values, permission bits, the flags each call site passes, the recipes, unlink-before-create "
+           "and open flags (strace + --wrap) and which uid each ownership test consults (starts with real != "
+           "effective uid) are re-observed on every run; tied to the code by running /repo's path.c on real "
+           "directory trees under every kind of real/effective/saved uid and gid combination (forked children, "
+           "setresuid/setresgid) and the real daemon rebuilt from /repo in generated trees (identities, prior states "
+           "of all five names), both diffed with the extracted model and judged by an independent statement of the "
+           "property.", "7 C16"),
     note="Trusted: Coq kernel+vm_compute, facts probe (strace parser), extraction, harness/driver glue, Linux "
-         "semantics of umask/bind; the C code is modelled and tied by differential testing, not verified. "
+         "semantics of umask/bind/open/unlink (fs.protected_* sysctls do not apply: no sticky directories among "
+         "the leaf directories used); the C code is modelled and tied by differential testing, not verified. "
          "TOCTOU between the checks and the later open() calls is outside the model. Observation proved and "
          "replayed: a pre-existing log file keeps its mode (group/other read bits are not examined). Candidate "
          "finding proved and replayed on every run: a FIFO at the seed path wedges the start (random.c opens the "
-         "seed without O_NONBLOCK); the theorem is stated so that it checks before and after the repair.",
+         "seed without O_NONBLOCK); the theorem is stated so that it checks before and after the repair. Same kind: a "
+         "FIFO at the lock file's name blocks the start in open(O_WRONLY) until a signal arrives "
+         "(C16_lock_fifo_blocks).",
     technique="Coq proof (induction over the chain + 512-value sweep lifted by lemma) + translator (probe, strace, "
               "--wrap) + differential correspondence on real trees and real daemon starts")
 
-FOREIGN = 5151          # owner that is neither root nor any effective uid used here
+FOREIGN = 5151          # owner that is neither root nor any uid a process here runs with
 EUID2 = 4242            # non-root effective uid for part of the runs
+RUID2 = 4343            # non-root real uid (differs from the effective one) for part of the runs
+SUID2 = 4444            # non-root saved uid (path.c harness only: execve makes saved = effective)
+RGID2, EGID2, SGID2 = 6161, 6262, 6363
 TGID = 7070             # the --trusted-group
 OGID = 6060             # some other group
 NO_TG = 4294967295
@@ -112,6 +124,7 @@ def gen_path_cases(ctx):
             combo = [rng.choice(attrs) for _ in range(k)]
         e, tg, fl = rng.choice(glob)
         cases.append("P %d %s %d %s %d %s" % (e, tg, fl, rng.choice("ddddsuf"), k, fmt_attrs(combo)))
+    cases += gen_identity_path_cases(ctx)
     xmodes = (0o755, 0o750, 0o711, 0o710, 0o700, 0o754, 0o745, 0o355, 0o1777, 0o555, 0o111, 0o110)
     for _ in range(2000 if ctx.thorough else 300):
         k = rng.randrange(1, 6)
@@ -124,6 +137,45 @@ def gen_path_cases(ctx):
             dn.append("".join(t))
     for s in dn:
         cases.append("D %s" % vlib.hexs(s.encode()))
+    return cases
+
+
+def gen_identity_path_cases(ctx):
+    """path_is_secure called by a process with every kind of (real, effective, saved) uid combination — all equal,
+    pairwise equal, all different, with and without root in each position — and likewise for the gids; one
+    directory of the chain belongs to each of the ids in turn (and to root, and to nobody of them)"""
+    rng = ctx.rng
+    cases = []
+    upool = (0, RUID2, EUID2, SUID2)
+    utriples = [(r, e, sv) for r in upool for e in upool for sv in upool
+                if (r in (0, RUID2) or r == e) and (sv in (0, SUID2) or sv == e or sv == r)]
+    gpool = (0, RGID2, EGID2, SGID2, TGID, OGID)
+    gtriples = [(0, 0, 0), (RGID2, EGID2, SGID2), (RGID2, 0, 0), (0, EGID2, 0), (0, 0, SGID2), (TGID, OGID, 0),
+                (OGID, TGID, TGID), (EGID2, EGID2, EGID2), (TGID, TGID, TGID), (0, OGID, TGID)]
+    if not ctx.thorough:
+        keep = [t for t in utriples if len(set(t)) == 3 or t in ((0, 0, 0), (EUID2, EUID2, EUID2))]
+        rest = [t for t in utriples if t not in keep]
+        rng.shuffle(rest)
+        utriples = keep + rest[:14]
+    n = 0
+    for (r, e, sv) in utriples:
+        owners = sorted({0, r, e, sv, FOREIGN})
+        for owner in owners:
+            for bits in ((0,) if (owner in (0, e) and not ctx.thorough) else (0, 1)) + ((1, 5, 2) if owner == e else ()):
+                n += 1
+                rg, eg, sg = gtriples[n % len(gtriples)] if not ctx.thorough else rng.choice(gtriples)
+                k = 2 + n % 3
+                pos = n % k
+                # group of the odd directory: one of the process's gids, the trusted group, or another one
+                g = (rg, eg, sg, TGID, OGID)[n % 5] or OGID
+                m = 0o755 | (0o020 if bits & 1 else 0) | (0o002 if bits & 2 else 0) | (0o1000 if bits & 4 else 0)
+                combo = [(0, OGID, 0o755)] * k
+                combo[pos] = (owner, g, m)
+                if e != 0 and pos != k - 1 and n % 2:
+                    combo[k - 1] = (e, OGID, 0o755)          # leaf owned by the effective user, as munged's would be
+                tg = ("-", str(TGID), str(g))[n % 3] if bits & 1 else ("-", str(TGID))[n % 2]
+                cases.append("I %d %d %d %d %d %d %s %d %s %d %s" % (r, e, sv, rg, eg, sg, tg, (n // 7) % 2,
+                                                                   "dsuf"[n % 4], k, fmt_attrs(combo)))
     return cases
 
 
@@ -161,7 +213,17 @@ def path_case_property(case, answer):
         want = "A 1" if bad is None else "A 0 %d" % bad
         return (None if right == want else "path_is_accessible answers %s, expected %s" % (right, want)), left
     c = case.split()
-    euid, tg, flags, leaf_is_dir = int(f[1]), int(f[2]), int(f[3]), f[4] == "1"
+    ids = None
+    if case.startswith("I "):
+        # the process identity the harness reports must be the one asked for; the rule is about the EFFECTIVE uid
+        ids = [int(x) for x in f[1].split(":")]
+        if ids != [int(x) for x in c[1:7]]:
+            return "harness did not assume the requested identity (%s vs %s)" % (ids, c[1:7]), left
+        c = ["P", c[2]] + c[7:]
+        euid = ids[1]
+    else:
+        euid = int(f[1])
+    tg, flags, leaf_is_dir = int(f[2]), int(f[3]), f[4] == "1"
     chain = parse_chain(f[5])
     # the harness applied what the case asked for (leaf first in the answer, top first in the case)
     want_attrs = list(reversed(parse_chain(c[6])))
@@ -175,11 +237,13 @@ def path_case_property(case, answer):
         return None, left
     if right == "P 1":
         i, r = v
-        return ("path_is_secure accepts a path whose directory #%d from the leaf %s (euid %d, trusted group %s, "
-                "flags %d, chain %s)" % (i, {"O": "is owned by a foreign uid", "G": "is group-writable without "
-                "sticky bit/trusted group", "W": "is world-writable without sticky bit"}[r], euid,
+        return ("path_is_secure accepts a path whose directory #%d from the leaf %s (euid %d%s, trusted group %s, "
+                "flags %d, chain %s)" % (i, {"O": "is owned by neither root nor the effective user", "G": "is "
+                "group-writable without sticky bit/trusted group", "W": "is world-writable without sticky bit"}[r],
+                euid, "" if ids is None else ", process ids ruid:euid:suid:rgid:egid:sgid = " + f[1],
                 "unset" if tg == NO_TG else tg, flags, f[5])), left
-    return "path_is_secure answers %s, the property demands %s (chain %s)" % (right, want, f[5]), left
+    return "path_is_secure answers %s, the property demands %s (%schain %s)" % (
+        right, want, "" if ids is None else "process ids ruid:euid:suid:rgid:egid:sgid = %s, " % f[1], f[5]), left
 
 
 # --------------------------------------------------------------------------------------------------
@@ -189,9 +253,18 @@ def base_case(fg=True, euid=0, tg=None, umask=0o022, force=False, depth=1):
     own = euid
     d = lambda: [(0, 0, 0o755)] * (depth - 1) + [(own, 0, 0o755)]
     return {"fg": fg, "force": force, "euid": euid, "tg": tg, "umask": umask,
+            "ids": None,        # (ruid, euid, rgid, egid); None = all uids euid, all gids euid (0 for root)
             "dirs": {s: d() for s in SITES},
             "key": {"type": "reg", "uid": euid, "gid": 0, "mode": 0o600},
-            "seed": None, "log": None, "lock": None}
+            "seed": None, "log": None, "lock": None, "pid": None, "sock": None}
+
+
+def ids_of(case):
+    """(ruid, euid, rgid, egid) the daemon is started with"""
+    if case.get("ids"):
+        return tuple(case["ids"])
+    e = case["euid"]
+    return (e, e, e, e)
 
 
 def gen_daemon_cases(ctx):
@@ -346,6 +419,92 @@ def gen_daemon_cases(ctx):
         if k % 2:
             c["lock"] = {"type": "reg", "uid": 0, "gid": 0, "mode": 0o644}
         add("force", c)
+    # --- which identity the ownership rules use: real uid != effective uid (and gids likewise).  A process
+    #     started by execve has saved = effective, so (ruid, euid) x (rgid, egid) is all a daemon can differ in.
+    idents = [(RUID2, 0, 0, 0), (RUID2, 0, RGID2, EGID2), (0, EUID2, 0, EUID2), (RUID2, EUID2, RGID2, EGID2),
+              (0, EUID2, TGID, OGID), (RUID2, 0, OGID, TGID)]
+    if T:
+        idents += [(FOREIGN, 0, 0, 0), (RUID2, EUID2, EGID2, EGID2), (0, 0, RGID2, 0), (EUID2, EUID2, 0, EGID2)]
+    for (r, e, rg, eg) in idents:
+        owners = sorted({0, r, e, FOREIGN})
+        for owner in owners:
+            for fg in (True, False):
+                for site in ("key", "seed", "log", "lock"):
+                    if site == "log" and fg:
+                        continue
+                    if not T and owner == FOREIGN and not fg:
+                        continue
+                    c = base_case(fg=fg, euid=e, tg=(TGID if (r + eg) % 2 else None))
+                    c["ids"] = (r, e, rg, eg)
+                    c[site] = {"type": "reg", "uid": owner, "gid": 0, "mode": 0o200 if site == "lock" else 0o600}
+                    add("ident", c)
+            # a directory above each of the five names owned by that uid
+            for site in SITES:
+                c = base_case(fg=(site != "log"), euid=e, depth=2)
+                c["ids"] = (r, e, rg, eg)
+                ch = list(c["dirs"][site])
+                ch[0] = (owner, OGID, 0o755)
+                c["dirs"][site] = ch
+                add("ident", c)
+        # group-writable directories whose group is one of the process's gids: only the --trusted-group counts
+        for g in sorted({rg, eg} - {0}):
+            for tg in (None, TGID):
+                c = base_case(fg=True, euid=e, tg=tg, depth=2)
+                c["ids"] = (r, e, rg, eg)
+                ch = list(c["dirs"]["key"])
+                ch[0] = (0, g, 0o775)
+                c["dirs"]["key"] = ch
+                add("ident", c)
+    # --- whatever is at the name of a file the daemon creates: nothing, a regular file of any owner and mode, a
+    #     symlink to one, a dangling symlink, a directory, a FIFO, a socket
+    def priors(site):
+        out = []
+        rmodes = (0o666, 0o644, 0o600, 0o777, 0o000, 0o200, 0o660, 0o640, 0o606, 0o4755, 0o1644, 0o620) if T else \
+                 (0o666, 0o644, 0o600, 0o777, 0o000, 0o200, 0o660, 0o606)
+        for m in rmodes:
+            for owner in ("euid", "foreign", "ruid"):
+                out.append(("reg", owner, m))
+        for m in (0o666, 0o600, 0o200, 0o644):
+            for owner in ("euid", "foreign"):
+                out.append(("symlink", owner, m))
+        out += [("dangling", "euid", 0o777), ("dir", "euid", 0o755), ("dir", "foreign", 0o777), ("sock", "foreign", 0o777),
+                ("sock", "euid", 0o600)]
+        if site in ("pid", "sock"):
+            out += [("fifo", "foreign", 0o666), ("fifo", "euid", 0o600)]    # unlinked before anything opens them
+        if site == "lock":
+            out += [("fifo", "euid", 0o200)]                                # blocks the start (observation)
+        return out
+
+    k = 0
+    umasks = (0o022, 0o000, 0o077, 0o027, 0o002, 0o777, 0o026, 0o755)
+    for site in PRIOR_SITES:
+        for (typ, who, m) in priors(site):
+            for fg in (True, False):
+                if site == "log" and fg:
+                    continue
+                for force in ((False, True) if (site in ("lock", "log") or typ in ("symlink", "dangling")) and (T or m in (0o666, 0o200, 0o777, 0o755)) else (False,)):
+                    k += 1
+                    r, e, rg, eg = ((0, 0, 0, 0), (RUID2, 0, RGID2, 0), (0, 0, 0, 0), (EUID2, EUID2, EGID2, EGID2))[k % 4]
+                    if e != 0 and (who != "euid" or typ == "fifo" or not (m & 0o200) or (site == "seed" and not (m & 0o400))):
+                        r, e, rg, eg = (RUID2, 0, 0, EGID2)      # a non-root daemon may not open/replace those: outside the model
+                    if typ == "fifo" and site == "lock" and force:
+                        continue
+                    c = base_case(fg=fg, euid=e, force=force, umask=umasks[k % len(umasks)])
+                    c["ids"] = (r, e, rg, eg)
+                    owner = {"euid": e, "foreign": FOREIGN, "ruid": r if r != e else FOREIGN}[who]
+                    c[site] = {"type": typ, "uid": owner, "gid": (0, eg, OGID)[k % 3], "mode": m}
+                    add("prior", c)
+    # several names occupied at once
+    for _ in range(400 if T else 40):
+        e = rng.choice((0, 0, 0, EUID2))
+        c = base_case(fg=rng.random() < 0.5, euid=e, umask=rng.choice(umasks))
+        c["ids"] = (rng.choice((e, RUID2)), e, rng.choice((0, RGID2)), rng.choice((e, EGID2)))
+        for site in PRIOR_SITES:
+            if rng.random() < 0.6:
+                typ = rng.choice(("reg", "reg", "symlink", "dangling") + (("sock", "fifo") if site in ("pid", "sock") else ()))
+                c[site] = {"type": typ, "uid": e if (e != 0 or rng.random() < 0.5) else FOREIGN, "gid": 0,
+                           "mode": rng.choice((0o666, 0o644, 0o600, 0o200, 0o640, 0o777)) | (0o600 if e != 0 else 0)}
+        add("prior", c)
     # --- random combinations (order of the checks, several faults at once)
     for _ in range(8000 if T else 150):
         e = rng.choice((0, 0, 0, EUID2))
@@ -417,6 +576,10 @@ def make_file(path, spec, payload):
             f.write(payload)
     elif typ == "fifo":
         os.mkfifo(target)
+    elif typ == "sock":
+        sk = socket.socket(socket.AF_UNIX, socket.SOCK_STREAM)
+        sk.bind(target)
+        sk.close()
     elif typ == "dir":
         os.mkdir(target)
     elif typ == "missing":
@@ -468,6 +631,12 @@ def classify(err, leaf):
         return pathmsg("sock", t[len("Socket is inaccessible: "):])
     if t.startswith("Failed to validate lockfile"):
         return "lock:lockfile"
+    if re.match(r'Failed to create "[^"]*\.lock"', t):
+        return "lock:create"
+    if t.startswith("Failed to remove socket") or t.startswith("Failed to bind socket"):
+        return "bind:exists"
+    if t.startswith("Failed to open logfile"):
+        return "log:create"
     if t.startswith("PIDfile is insecure: "):
         return pathmsg("pid", t[len("PIDfile is insecure: "):])
     return "other:" + t[:80].replace(" ", "_")
@@ -485,10 +654,42 @@ def o3(m):
     return "-" if m is None else "%03o" % (m & 0o7777)
 
 
+PRIOR_SITES = ("seed", "log", "lock", "pid", "sock")     # names the daemon creates; a case may put something there first
+
+
+def pids_by_marker(marker):
+    out = []
+    me = os.getpid()
+    for q in os.listdir("/proc"):
+        if q.isdigit() and int(q) != me:
+            try:
+                if marker.encode() in open("/proc/%s/cmdline" % q, "rb").read():
+                    out.append(int(q))
+            except OSError:
+                pass
+    return out
+
+
+def proc_gone(pid):
+    try:
+        return open("/proc/%d/stat" % pid).read().split(")")[-1].split()[0] == "Z"
+    except OSError:
+        return True
+
+
+def reg_nonempty(path):
+    try:
+        st = os.stat(path)
+    except OSError:
+        return False
+    return stat.S_ISREG(st.st_mode) and st.st_size > 0
+
+
 def run_daemon_case(exe, top, idx, case):
     """builds the tree, runs munged, stops it; returns dict(model_line, impl, obs)"""
     R = os.path.join(top, "r%05d" % idx)
     res = {"case": case}
+    launcher = os.path.join(os.path.dirname(exe), "c16_launch")
     try:
         os.mkdir(R, 0o755)
         os.chmod(R, 0o755)
@@ -507,45 +708,48 @@ def run_daemon_case(exe, top, idx, case):
             paths[s] = os.path.join(d, s)
         paths["lock"] = paths["sock"] + ".lock"
         make_file(paths["key"], case["key"], os.urandom(32))
-        for s in ("seed", "log", "lock"):
-            if case[s] is not None:
+        for s in PRIOR_SITES:
+            if case.get(s) is not None:
                 make_file(paths[s], case[s], os.urandom(1024) if s == "seed" else b"")
         euid, tg = case["euid"], case["tg"]
+        ruid, euid_, rgid, egid = ids_of(case)
+        assert euid_ == euid
+        ids_s = "%d:%d:%d:%d:%d:%d" % (ruid, euid, euid, rgid, egid, egid)     # execve: saved := effective
         # what the model is told: lstat/stat of the tree as built
-        line = "U %d %d %d %d %03o key=%s keydir=%s seed=%s seeddir=%s log=%s logdir=%s sockdir=%s lock=%s piddir=%s" % (
-            case["fg"], case["force"], euid, NO_TG if tg is None else tg, case["umask"],
+        line = ("U %d %d %s %d %03o key=%s keydir=%s seed=%s seeddir=%s log=%s logdir=%s sock=%s sockdir=%s lock=%s "
+                "pid=%s piddir=%s") % (
+            case["fg"], case["force"], ids_s, NO_TG if tg is None else tg, case["umask"],
             fobs_str(paths["key"]), fmt_attrs(chain_of(leaf["key"])),
             fobs_str(paths["seed"]), fmt_attrs(chain_of(leaf["seed"])),
             fobs_str(paths["log"]), fmt_attrs(chain_of(leaf["log"])),
-            fmt_attrs(chain_of(leaf["sock"])),
-            fobs_str(paths["lock"]).split("/", 1)[1], fmt_attrs(chain_of(leaf["pid"])))
+            fobs_str(paths["sock"]), fmt_attrs(chain_of(leaf["sock"])),
+            fobs_str(paths["lock"]), fobs_str(paths["pid"]), fmt_attrs(chain_of(leaf["pid"])))
         res["model_line"] = line
+        res["before"] = {s: fobs_str(paths[s]) for s in PRIOR_SITES}
         seed_before = os.path.lexists(paths["seed"])
         errf = os.path.join(R, "stderr")
-        argv = [exe] + (["-F"] if case["fg"] else []) + (["-f"] if case["force"] else []) + [
+        argv = [launcher, str(ruid), str(euid), str(rgid), str(egid), "%o" % case["umask"], exe] \
+            + (["-F"] if case["fg"] else []) + (["-f"] if case["force"] else []) + [
             "-S", paths["sock"], "--key-file=" + paths["key"], "--pid-file=" + paths["pid"],
             "--seed-file=" + paths["seed"], "--log-file=" + paths["log"], "--group-update-time=-1",
             "--origin=127.0.0.1", "--num-threads=1"] + (["--trusted-group=%d" % tg] if tg is not None else [])
         res["argv"] = argv
-        kw = dict(umask=case["umask"])
-        if euid != 0:
-            kw.update(user=euid, group=euid, extra_groups=[])
         with open(errf, "wb") as ef:
             os.chmod(errf, 0o666)
-            p = subprocess.Popen(argv, stdin=subprocess.DEVNULL, stdout=ef, stderr=ef, cwd="/", **kw)
+            p = subprocess.Popen(argv, stdin=subprocess.DEVNULL, stdout=ef, stderr=ef, cwd="/")
         started = False
         t0 = time.time()
-        limit = 3 if (case["seed"] or {}).get("type") == "fifo" else 10
+        fifo_about = any((case.get(s) or {}).get("type") == "fifo" for s in PRIOR_SITES)
+        limit = 3 if fifo_about else 10
         if case["fg"]:
             while time.time() - t0 < limit:
                 if p.poll() is not None:
                     break
-                try:
-                    if os.path.getsize(paths["pid"]) > 0:
-                        started = True
-                        break
-                except OSError:
-                    pass
+                # started = the pid has been written; when a directory sits at the pid file's name the daemon
+                # says so on stderr instead (write_pidfile is the last step of the start-up either way)
+                if reg_nonempty(paths["pid"]) or b"Failed to open PIDfile" in open(errf, "rb").read():
+                    started = True
+                    break
                 time.sleep(0.004)
         else:
             try:
@@ -554,19 +758,18 @@ def run_daemon_case(exe, top, idx, case):
                 pass
         obs = {"started": started}
         if started:
-            obs["sock"] = mode_of(paths["sock"])
-            obs["lock"] = mode_of(paths["lock"])
-            obs["pid"] = mode_of(paths["pid"])
-            obs["log"] = None if case["fg"] else mode_of(paths["log"] + (".real" if (case["log"] or {}).get("type") == "symlink" else ""))
+            for s in ("sock", "lock", "pid"):
+                obs[s] = fobs_str(paths[s])
+            obs["log"] = "-" if case["fg"] else fobs_str(paths["log"])
             obs["seed_removed"] = seed_before and not os.path.lexists(paths["seed"])
-            pid = None
             try:
-                pid = int(open(paths["pid"]).read().strip())
-            except Exception:
-                pass
+                obs["pid_content"] = open(paths["pid"]).read().strip() if reg_nonempty(paths["pid"]) else None
+            except OSError:
+                obs["pid_content"] = None
             # SIGTERM is repeated: a signal landing between job_accept's flag test and accept() is lost
             # (finding F-C12-accept, not this property's business)
             if case["fg"]:
+                obs["daemon_pid"] = p.pid
                 for _ in range(20):
                     p.send_signal(signal.SIGTERM)
                     try:
@@ -578,36 +781,33 @@ def run_daemon_case(exe, top, idx, case):
                     p.kill()
                     p.wait()
                     obs["stuck"] = True
-            elif pid:
-                gone = False
+            else:
+                dp = [q for q in pids_by_marker(R) if not proc_gone(q)]
+                obs["daemon_pid"] = dp[0] if len(dp) == 1 else None
+                gone = not dp
                 for _ in range(20):
-                    try:
-                        os.kill(pid, signal.SIGTERM)
-                    except OSError:
-                        gone = True
-                        break
-                    t1 = time.time()
-                    while time.time() - t1 < 0.5 and not gone:
-                        try:
-                            if open("/proc/%d/stat" % pid).read().split(")")[-1].split()[0] == "Z":
-                                gone = True
-                        except OSError:
-                            gone = True
-                        if not gone:
-                            time.sleep(0.004)
                     if gone:
                         break
+                    for q in dp:
+                        try:
+                            os.kill(q, signal.SIGTERM)
+                        except OSError:
+                            pass
+                    t1 = time.time()
+                    while time.time() - t1 < 0.5 and not gone:
+                        gone = all(proc_gone(q) for q in dp)
+                        if not gone:
+                            time.sleep(0.004)
                 if not gone:
                     obs["stuck"] = True
-            sm = mode_of(paths["seed"])
-            obs["seed"] = sm if (sm is not None and stat.S_ISREG(sm)) else None
+            obs["seed"] = fobs_str(paths["seed"])
         else:
             if p.poll() is None:
                 p.kill()
                 p.wait()
                 obs["hung"] = True
-            obs["lock"] = mode_of(paths["lock"])
-            obs["sock"] = mode_of(paths["sock"])
+            obs["lock"] = fobs_str(paths["lock"])
+            obs["sock"] = fobs_str(paths["sock"])
         text = open(errf, errors="replace").read()
         if started and not case["fg"]:
             try:
@@ -618,8 +818,7 @@ def run_daemon_case(exe, top, idx, case):
         obs["seed_used"] = bool(re.search(r'Seeded PRNG with \d+ bytes? from "%s"' % re.escape(paths["seed"]), text))
         if started:
             impl = "U start sock=%s lock=%s pid=%s log=%s seed=%s used=%d removed=%d" % (
-                o3(obs["sock"]), o3(obs["lock"]), o3(obs["pid"]), o3(obs["log"]), o3(obs["seed"]),
-                obs["seed_used"], obs["seed_removed"])
+                obs["sock"], obs["lock"], obs["pid"], obs["log"], obs["seed"], obs["seed_used"], obs["seed_removed"])
         elif obs.get("hung"):
             impl = "U hung"
         else:
@@ -639,49 +838,98 @@ def acceptable_file(spec, euid, mask):
     return (spec is not None and spec["type"] == "reg" and spec["uid"] == euid and (spec["mode"] & mask) == 0)
 
 
-def daemon_property(case, obs, tail):
+def parse_fobs(t):
+    """'<symlink>/<type>:<uid>:<gid>:<mode>' -> dict(sym, type, uid, gid, mode) ; type None = nothing there"""
+    sym, st = t.split("/", 1)
+    if st == "-":
+        return {"sym": sym == "1", "type": None}
+    ty, u, g, m = st.split(":")
+    return {"sym": sym == "1", "type": ty, "uid": int(u), "gid": int(g), "mode": int(m, 8)}
+
+
+def created_file_clause(name, bound, exact, ftype, after, before, euid, umask, ids):
+    """the clause about one file the daemon creates, judged on what lstat/stat report at its name after the start
+    (before = the same beforehand).  "The pid/log/seed file is never more permissive than B" and "the socket it
+    creates is 0777 / the lock file exactly 0200" speak about the file the daemon uses under that name: it has to
+    be that file (not one reached through somebody's symlink), owned by the user munged acts as (a file of another
+    owner is as permissive as its owner likes), with permission bits inside the bound."""
+    a = parse_fobs(after)
+    ctx_ = "(there before the start: %s; inherited umask %03o; process ruid:euid:rgid:egid = %s)" % (before, umask, ids)
+    if a["type"] != ftype:
+        return None if not exact else "%s is not a %s after the start: %s %s" % (
+            name, {"r": "regular file", "s": "socket"}[ftype], after, ctx_)
+    if exact:
+        if a["mode"] != bound:
+            return "%s mode is %04o, not %04o %s" % (name, a["mode"], bound, ctx_)
+    elif a["mode"] & ~bound:
+        return "%s mode %04o is more permissive than %04o %s" % (name, a["mode"], bound, ctx_)
+    if a["uid"] != euid:
+        return "%s belongs to uid %d, not to the effective uid %d munged runs as: its owner controls it %s" % (
+            name, a["uid"], euid, ctx_)
+    if a["sym"] and not (name == "lock file"):
+        return "%s is reached through a symbolic link somebody else planted %s" % (name, ctx_)
+    return None
+
+
+def daemon_property(case, obs, tail, before):
     """the property itself, judged on what the daemon did; tail = chain above the run root (root first... leaf
-    first order is irrelevant: every element is checked)"""
+    first order is irrelevant: every element is checked).  Every ownership rule is about the EFFECTIVE uid."""
     euid, tg = case["euid"], case["tg"]
+    ids = ":".join(str(x) for x in ids_of(case))
     why_refuse = []
     if not case["force"]:
         if not acceptable_file(case["key"], euid, 0o066):
-            why_refuse.append("key file %s" % case["key"])
+            why_refuse.append("key file %s (effective uid %d, process ruid:euid:rgid:egid = %s)" % (case["key"], euid, ids))
         for s in SITES:
             if s == "log" and case["fg"]:
                 continue
             chain = list(reversed(case["dirs"][s])) + tail
             v = spec_chain(euid, tg, s == "log", chain)
             if v:
-                why_refuse.append("%s directory #%d from the leaf: %s %s" % (s, v[0], v[1], chain[v[0]]))
+                why_refuse.append("%s directory #%d from the leaf: %s %s (effective uid %d, process ruid:euid:rgid:egid = %s)"
+                                  % (s, v[0], v[1], chain[v[0]], euid, ids))
     if obs.get("hung"):
-        if (case["seed"] or {}).get("type") == "fifo":
+        if (case.get("seed") or {}).get("type") == "fifo":
             return None     # candidate finding reported as an observation (C16_seed_fifo_outcome), see run()
-        return "munged neither started nor refused within 10 s"
+        if (case.get("lock") or {}).get("type") == "fifo" and not case["force"]:
+            return None     # same kind (C16_lock_fifo_blocks)
+        return "munged neither started nor refused within the time limit (there before the start: %s)" % before
     if obs["started"]:
         if why_refuse:
             return "munged starts without --force although: " + "; ".join(why_refuse[:3])
-        if obs["sock"] is None or (obs["sock"] & 0o7777) != 0o777:
-            return "socket mode is %s, not 0777 (inherited umask %03o)" % (o3(obs["sock"]), case["umask"])
-        if obs["lock"] is None or (obs["lock"] & 0o7777) != 0o200:
-            return "lock file mode is %s, not 0200 (inherited umask %03o)" % (o3(obs["lock"]), case["umask"])
-        if obs["pid"] is not None and (obs["pid"] & 0o7777 & ~0o644):
-            return "pid file mode %s is more permissive than 0644 (umask %03o)" % (o3(obs["pid"]), case["umask"])
-        if not case["fg"] and case["log"] is None and obs["log"] is not None and (obs["log"] & 0o7777 & ~0o640):
-            return "created log file mode %s is more permissive than 0640 (umask %03o)" % (o3(obs["log"]), case["umask"])
-        if obs["seed"] is not None and (obs["seed"] & 0o7777 & ~0o600):
-            return "seed file mode %s is more permissive than 0600 (umask %03o)" % (o3(obs["seed"]), case["umask"])
+        um = case["umask"]
+        w = created_file_clause("socket", 0o777, True, "s", obs["sock"], before["sock"], euid, um, ids)
+        if w:
+            return w
+        lk = parse_fobs(obs["lock"])
+        if not (case["force"] and lk["type"] != "r"):       # --force may carry on without a lock file
+            w = created_file_clause("lock file", 0o200, True, "r", obs["lock"], before["lock"], euid, um, ids)
+            if w:
+                return w
+        w = created_file_clause("pid file", 0o644, False, "r", obs["pid"], before["pid"], euid, um, ids)
+        if w:
+            return w
+        if obs.get("pid_content") is not None and obs.get("daemon_pid") and obs["pid_content"] != str(obs["daemon_pid"]):
+            return "pid file holds %r, the daemon's pid is %d" % (obs["pid_content"], obs["daemon_pid"])
+        if not case["fg"] and parse_fobs(before["log"])["type"] is None and not parse_fobs(before["log"])["sym"]:
+            w = created_file_clause("created log file", 0o640, False, "r", obs["log"], before["log"], euid, um, ids)
+            if w:
+                return w
+        w = created_file_clause("seed file", 0o600, False, "r", obs["seed"], before["seed"], euid, um, ids)
+        if w:
+            return w
         sd = case["seed"]
         if sd is not None and sd["type"] != "missing":
             ok = acceptable_file(sd, euid, 0o066)
             if not ok and obs["seed_used"]:
-                return "a seed file failing the ownership/permission checks was used (%s)" % sd
+                return "a seed file failing the ownership/permission checks was used (%s; effective uid %d, process %s)" % (sd, euid, ids)
             if not ok and sd["type"] != "dir" and not obs["seed_removed"]:
                 return "a seed file failing the ownership/permission checks was not removed (%s)" % sd
     elif case["lock"] is None:
         # a refused start must not leave a wrong lock file behind either
-        if obs.get("lock") is not None and stat.S_ISREG(obs["lock"]) and (obs["lock"] & 0o7777) != 0o200:
-            return "lock file created with mode %s, not 0200" % o3(obs["lock"])
+        lk = parse_fobs(obs.get("lock", "0/-"))
+        if lk["type"] == "r" and lk["mode"] != 0o200:
+            return "lock file created with mode %04o, not 0200" % lk["mode"]
     return None
 
 
@@ -748,10 +996,15 @@ def run(ctx):
         "/repo; correspondence (a): /repo's path.c run on real directory chains (every (owner in root/euid/foreign) x "
         "(gid trusted/other) x g+w x o+w x sticky combination on each directory up to depth 2 (3 thorough), each "
         "combination at each position of a depth-5 chain, random chains up to depth 6, reached directly / through a "
-        "symlink / with ../ detours / via a file leaf; x euid {0,4242} x trusted group set/unset x flags {0,1}), "
+        "symlink / with ../ detours / via a file leaf; x euid {0,4242} x trusted group set/unset x flags {0,1}; and "
+        "called by forked children with (real, effective, saved) uid and gid triples of every equality pattern, one "
+        "directory owned by each of the ids in turn), "
         "path_is_accessible, path_dirname; (b): munged rebuilt from /repo started in generated trees (key modes x "
         "types x owners, each attribute combination on each ancestor of each of the five paths, umasks x fg/daemon "
-        "mode for all 512 umasks, existing seed/log/lock files, --force, random combinations); each answer judged by an independent "
+        "mode for all 512 umasks, existing seed/log/lock files, --force, random combinations; started with real != "
+        "effective uid/gid and key/seed/log/lock/directories owned by the real, the effective, root's or a foreign "
+        "uid; with a regular file of assorted owners and modes / symlink / dangling symlink / directory / FIFO / "
+        "socket already sitting at the pid, socket, lock, seed and log name); each answer judged by an independent "
         "statement of the property and diffed with the extracted model; non-trivial = every case")
     oracle = vlib.build_oracle(ctx, "path")
     R = vlib.REPO
@@ -769,7 +1022,13 @@ def run(ctx):
         ctx.violation("munged does not build from /repo: " + err[-500:],
                       {"obligation": "correspondence C16 (daemon build)", "stderr": err}, found_input=False)
         return
-    ctx.cov["trusted_base"] += ["harness/path_harness.c, tools/props/c16.py (tree builder, error-text classifier)",
+    rcl = subprocess.run(["gcc", "-w", "-O1", "-o", os.path.join(ctx.tmp, "c16_launch"),
+                          os.path.join(vlib.HARNESS, "c16_launch.c")], capture_output=True, text=True, timeout=120)
+    if rcl.returncode != 0:
+        ctx.violation("identity launcher does not build: " + rcl.stderr[-300:], {"obligation": "infrastructure"},
+                      found_input=False)
+        return
+    ctx.cov["trusted_base"] += ["harness/path_harness.c, harness/c16_launch.c, tools/props/c16.py (tree builder, error-text classifier)",
                                 "Linux: umask(2)/bind(2)/open(2) mode semantics, strace 6.1 output format"]
     replay_case = None
     if ctx.replay:
@@ -878,7 +1137,7 @@ def run(ctx):
                 infra.append(r["error"])
                 continue
             ctx.count(r["model_line"])
-            why = daemon_property(c, r["obs"], tail)
+            why = daemon_property(c, r["obs"], tail, r.get("before", {}))
             if r["obs"].get("stuck"):
                 why = why or "munged did not exit within 10 s of SIGTERM"
             if why:
@@ -896,23 +1155,28 @@ def run(ctx):
                 return
             for i, l, b in zip(midx, mlines, mod):
                 a = results[i]["impl"]
-                sd = results[i]["case"]["seed"]
-                if sd is not None and sd["type"] == "dir":      # a directory in the seed's place is never replaced
-                    a = re.sub(r"seed=\S+", "seed=*", a)
-                    b = re.sub(r"seed=\S+", "seed=*", b)
+                if b.startswith("U hung "):         # the model also says where the start blocks
+                    results[i]["hung_at"] = b.split()[2]
+                    b = "U hung"
                 if a != b:
                     mismatches.append((results[i], a, b))
             ctx.log("model ran %d daemon cases, %d mismatches so far" % (len(mlines), len(mismatches)))
+            for (x, a, b) in mismatches[:3]:
+                ctx.log("  mismatch: impl=%s | model=%s | %s" % (a, b, x if isinstance(x, str) else x.get("model_line", "")[:260]))
             ctx.cov["traces_validated_against_impl"] = len(mlines) + len(pcases)
         # observation: an existing 0644 log file is accepted and keeps its mode (C16_existing_log_keeps_mode)
         for r in results:
             c = r["case"]
             if "obs" in r and c["log"] and c["log"]["type"] == "reg" and c["log"]["mode"] == 0o644 \
                     and c["log"]["uid"] == c["euid"] and r["obs"]["started"] and c.get("fam") == "log":
-                obs_log = "existing log file 0644 accepted without --force, mode afterwards %s" % o3(r["obs"]["log"])
+                obs_log = "existing log file 0644 accepted without --force, afterwards %s" % r["obs"]["log"]
                 break
         if obs_log:
             ctx.notes.append("observation replayed on the real daemon: " + obs_log)
+        hungl = [r for r in results if "obs" in r and r["obs"].get("hung") and (r["case"].get("lock") or {}).get("type") == "fifo"]
+        if hungl:
+            ctx.notes.append("observation replayed on the real daemon (%d runs): a FIFO at the lock file's name blocks the "
+                             "start in open(O_WRONLY) until a signal arrives (C16_lock_fifo_blocks)" % len(hungl))
         hung = [r for r in results if "obs" in r and r["obs"].get("hung") and (r["case"]["seed"] or {}).get("type") == "fifo"]
         if hung:
             ctx.notes.append("candidate finding replayed on the real daemon (%d runs): a FIFO at the seed path blocks "
